@@ -113,6 +113,7 @@ static bool applyContract(State &S, const CallBase *CB, const std::vector<Effect
   for (auto &e : effs) {
     if (e.op == "ret") { ret = Val::range(CB->getType()->getIntegerBitWidth(), ConstantRange::getNonEmpty(APInt(CB->getType()->getIntegerBitWidth(), (uint64_t)e.retlo, true), APInt(CB->getType()->getIntegerBitWidth(), (uint64_t)e.rethi, true) + 1)); continue; }
     Val p = getVal(S, CB->getArgOperand(e.ptr));
+    if (e.off != 0 && p.k == Val::PTR) { p.r = p.r.add(ConstantRange(APInt(64, (uint64_t)e.off, true))); if (p.root >= 0) p.rk += e.off; p.kb = KnownBits(64); p.hascs = false; }
     i128 nlo, nhi; int lr = -1; i128 lk = 0;
     if (e.len >= 0) { Val n = getVal(S, CB->getArgOperand(e.len)); tighten(S, n); nlo = umin(n); nhi = umax(n); lr = n.root; lk = n.rk; }
     else if (e.size >= 0) nlo = nhi = e.size;
@@ -121,7 +122,7 @@ static bool applyContract(State &S, const CallBase *CB, const std::vector<Effect
       nlo = nhi = pt->isSized() ? (i128)DLp->getTypeAllocSize(pt) : 0;
     }
     std::string what = "contract " + std::string(CB->getCalledFunction() ? CB->getCalledFunction()->getName() : "?") + " arg" + std::to_string(e.ptr);
-    if (e.op == "read") { checkAccess(S, p, nlo, nhi, false, CB, what.c_str(), lr, lk); continue; }
+    if (e.op == "read") { if (checkAccess(S, p, nlo, nhi, false, CB, what.c_str(), lr, lk)) checkInit(S, p, nlo, nhi, CB, what.c_str()); continue; }
     if (nhi == 0) continue;
     if (!checkAccess(S, p, nlo, nhi, true, CB, what.c_str(), lr, lk)) continue;
     Region &R = S.regions[p.reg];
@@ -491,6 +492,8 @@ static uint64_t regionHash(const RegionData &D) {
     mix((uint64_t)kv.first); mix(kv.second.first); const Val &v = kv.second.second; mix(v.k); mix((uint64_t)v.reg); mix((uint64_t)v.root);
     if (!v.r.isFullSet() && !v.r.isEmptySet()) { mix(v.r.getLower().getLimitedValue()); mix(v.r.getUpper().getLimitedValue()); }
   }
+  for (auto &w : D.written) { mix((uint64_t)w.first); mix((uint64_t)w.second); }
+  for (auto &w : D.nuls) { mix((uint64_t)w.first); mix((uint64_t)w.second); }
   D.hcache = h; D.hvalid = true;
   return h;
 }
@@ -506,7 +509,7 @@ static uint64_t memHash(const State &S) {
   }
   for (auto &r : S.roots) { mix((uint64_t)r.lo); mix((uint64_t)r.hi); }
   mix(S.errnoSet); if (S.errnoSet && S.errnoVal.k == Val::INT && S.errnoVal.r.isSingleElement()) mix(S.errnoVal.r.getSingleElement()->getLimitedValue());
-  mix(S.alarms.size());
+  for (auto &a : S.alarms) { mix(a.line); for (char c : a.kind) mix((uint64_t)c); for (char c : a.fn) mix((uint64_t)c); for (char c : a.msg) mix((uint64_t)c); }
   return h;
 }
 
@@ -682,7 +685,7 @@ static bool enterBlockW(State &S, BasicBlock *to) {
   if (hot && getenv("XAI_TRACE_HOT")) errs() << "[hot] " << to->getParent()->getName() << ":" << to->getName() << " from " << from->getName() << " forks[to]=" << F0.forks[to] << " forks[from]=" << F0.forks[from] << " visits=" << F0.visits[to] << "\n";
   enterBlock(S, to);
   if (!hot) {
-    if (CFG.dedupe && S.fresh > 0 && to->hasNPredecessorsOrMore(2) && S.alarms.empty()) { S.fresh--; if (seenBefore(S, to)) { S.dedup = true; return false; } }
+    if (CFG.dedupe && S.fresh > 0 && to->hasNPredecessorsOrMore(2) && S.alarms.size() < 16) { S.fresh--; if (seenBefore(S, to)) { S.dedup = true; return false; } }
     return true;
   }
   Frame &F = S.stack.back();
@@ -708,7 +711,7 @@ static bool enterBlockW(State &S, BasicBlock *to) {
   if (same) { if (getenv("XAI_TRACE_PRUNE")) errs() << "[prune] fixpoint at " << to->getParent()->getName() << ":" << to->getName() << " pathsteps=" << S.steps << "\n"; return false; }
   for (size_t i = 0; i < phis.size(); i++) F.regs[phis[i]] = wid[i];
   F.snaps[to] = {wid, mh};
-  if (CFG.dedupe && S.alarms.empty() && seenBefore(S, to)) { S.dedup = true; return false; }
+  if (CFG.dedupe && S.alarms.size() < 16 && seenBefore(S, to)) { S.dedup = true; return false; }
   return true;
 }
 
@@ -901,6 +904,7 @@ struct Engine {
         if (auto *cn = dyn_cast<ConstantInt>(ai->getArraySize())) sz *= cn->getZExtValue();
         int r = newRegion(S, std::string(F.F->getName()) + ":" + std::string(ai->getName()), RK_STACK, sz, sz);
         S.regions[r].frame = (int)S.stack.size();
+        if (CFG.trackInit) S.regions[r].w().trackInit = true;
         S.stack.back().allocas.push_back(r);
         defReg(S, I, Val::ptr(r, 0)); ++S.stack.back().it; continue;
       }
